@@ -19,95 +19,95 @@ From Muscle Require Import Conc.ThreadQ Conc.ThreadQWf Conc.ThreadQWake Conc.Thr
 Import ListNotations.
 
 (* exactly once, in order: at every moment what was sent = what was received followed by what is still queued *)
-Theorem c11_fifo_exactly_once : forall react ok m e s c, reachable_if false ABS react ok m e s ->
+Theorem c11_fifo_exactly_once : forall react ok m e s c, reachable_if false ABS NOLIM react ok m e s ->
   c_sent (ch (s_g s) c) = c_rcvd (ch (s_g s) c) ++ c_q (ch (s_g s) c).
-Proof. exact (fifo_exactly_once ABS). Qed.
+Proof. exact (fifo_exactly_once ABS NOLIM). Qed.
 Print Assumptions c11_fifo_exactly_once.
 
 (* ... and over any stretch of execution: what is received during it is, in this order, what was queued at its
    beginning followed by what was appended during it *)
 Theorem c11_fifo_no_overtaking : forall react ok m e s s' c,
-  reachable_if false ABS react ok m e s -> steps_if false ABS react ok s s' ->
+  reachable_if false ABS NOLIM react ok m e s -> steps_if false ABS NOLIM react ok s s' ->
   exists got more,
     c_rcvd (ch (s_g s') c) = c_rcvd (ch (s_g s) c) ++ got /\
     c_sent (ch (s_g s') c) = c_sent (ch (s_g s) c) ++ more /\
     got ++ c_q (ch (s_g s') c) = c_q (ch (s_g s) c) ++ more.
-Proof. exact (fifo_no_overtaking false ABS). Qed.
+Proof. exact (fifo_no_overtaking false ABS NOLIM). Qed.
 Print Assumptions c11_fifo_no_overtaking.
 
-Theorem c11_no_lost_wakeup_internal : forall react ok m e s, reachable_if false ABS react ok m e s ->
+Theorem c11_no_lost_wakeup_internal : forall react ok m e s, reachable_if false ABS NOLIM react ok m e s ->
   g_ist (s_g s) = ILive ->
   (exists w, l_pc (g_il (s_g s)) = PRecvPark CI w) \/ l_pc (g_il (s_g s)) = PIEvWait ->
   c_q (g_ci (s_g s)) <> [] ->
   readable (s_g s) CI = true \/ exists t, is_pend_i (l_pc (s_l s t)) = true.
-Proof. exact (no_lost_wakeup_internal ABS). Qed.
+Proof. exact (fun react => no_lost_wakeup_internal ABS NOLIM react eq_refl). Qed.
 Print Assumptions c11_no_lost_wakeup_internal.
 
-Theorem c11_no_lost_wakeup_owner : forall react ok m e s w, reachable_if false ABS react ok m e s ->
+Theorem c11_no_lost_wakeup_owner : forall react ok m e s w, reachable_if false ABS NOLIM react ok m e s ->
   l_pc (s_l s 0) = PRecvPark CO w -> c_q (g_co (s_g s)) <> [] ->
   readable (s_g s) CO = true \/ (exists t, l_pc (s_l s t) = PSendSig CO true) \/
   (g_ist (s_g s) = ILive /\ l_pc (g_il (s_g s)) = PSendSig CO true).
-Proof. exact (fun react ok m e s w => no_lost_wakeup_owner ABS react ok m e s w). Qed.
+Proof. exact (fun react ok m e s w => no_lost_wakeup_owner ABS NOLIM react eq_refl ok m e s w). Qed.
 Print Assumptions c11_no_lost_wakeup_owner.
 
-Theorem c11_internal_never_stuck : forall react ok m e s, reachable_if false ABS react ok m e s ->
+Theorem c11_internal_never_stuck : forall react ok m e s, reachable_if false ABS NOLIM react ok m e s ->
   g_ist (s_g s) = ILive -> c_q (g_ci (s_g s)) <> [] ->
-  (exists x, sys_step false ABS react s (LStep I CRun) = Some x) \/
-  (exists t x, is_pend_i (l_pc (s_l s t)) = true /\ sys_step false ABS react s (LStep (U t) CRun) = Some x).
-Proof. exact (internal_never_stuck ABS). Qed.
+  (exists x, sys_step false ABS NOLIM react s (LStep I CRun) = Some x) \/
+  (exists t x, is_pend_i (l_pc (s_l s t)) = true /\ sys_step false ABS NOLIM react s (LStep (U t) CRun) = Some x).
+Proof. exact (fun react => internal_never_stuck ABS NOLIM react eq_refl). Qed.
 Print Assumptions c11_internal_never_stuck.
 
-Theorem c11_owner_never_stuck : forall react ok m e s w, reachable_if false ABS react ok m e s ->
+Theorem c11_owner_never_stuck : forall react ok m e s w, reachable_if false ABS NOLIM react ok m e s ->
   l_pc (s_l s 0) = PRecvPark CO w -> c_q (g_co (s_g s)) <> [] ->
-  (exists x, sys_step false ABS react s (LStep (U 0) CRun) = Some x) \/
-  (exists t x, l_pc (s_l s t) = PSendSig CO true /\ sys_step false ABS react s (LStep (U t) CRun) = Some x) \/
-  (l_pc (g_il (s_g s)) = PSendSig CO true /\ exists x, sys_step false ABS react s (LStep I CRun) = Some x).
-Proof. exact (fun react ok m e s w => owner_never_stuck ABS react ok m e s w). Qed.
+  (exists x, sys_step false ABS NOLIM react s (LStep (U 0) CRun) = Some x) \/
+  (exists t x, l_pc (s_l s t) = PSendSig CO true /\ sys_step false ABS NOLIM react s (LStep (U t) CRun) = Some x) \/
+  (l_pc (g_il (s_g s)) = PSendSig CO true /\ exists x, sys_step false ABS NOLIM react s (LStep I CRun) = Some x).
+Proof. exact (fun react ok m e s w => owner_never_stuck ABS NOLIM react eq_refl ok m e s w). Qed.
 Print Assumptions c11_owner_never_stuck.
 
-Theorem c11_shutdown_completes : forall react ok m e s, reachable_if false ABS react ok m e s ->
+Theorem c11_shutdown_completes : forall react ok m e s, reachable_if false ABS NOLIM react ok m e s ->
   l_pc (s_l s 0) = PJoinWait -> l_k (s_l s 0) = [KDiscard] ->
-  (g_ist (s_g s) = IExited /\ exists x, sys_step false ABS react s (LStep (U 0) CRun) = Some x) \/
+  (g_ist (s_g s) = IExited /\ exists x, sys_step false ABS NOLIM react s (LStep (U 0) CRun) = Some x) \/
   (g_ist (s_g s) = ILive /\
    (In None (c_q (g_ci (s_g s))) \/ exiting (l_pc (g_il (s_g s))) = true) /\
-   ((exists x, sys_step false ABS react s (LStep I CRun) = Some x) \/
-    (exists t x, is_pend_i (l_pc (s_l s t)) = true /\ sys_step false ABS react s (LStep (U t) CRun) = Some x))).
-Proof. exact (shutdown_completes ABS). Qed.
+   ((exists x, sys_step false ABS NOLIM react s (LStep I CRun) = Some x) \/
+    (exists t x, is_pend_i (l_pc (s_l s t)) = true /\ sys_step false ABS NOLIM react s (LStep (U t) CRun) = Some x))).
+Proof. exact (fun react => shutdown_completes ABS NOLIM react eq_refl). Qed.
 Print Assumptions c11_shutdown_completes.
 
-Theorem c11_queued_before_start_delivered : forall react ok m e s s', reachable_if false ABS react ok m e s ->
-  g_running (s_g s) = false -> steps_if false ABS react ok s s' ->
+Theorem c11_queued_before_start_delivered : forall react ok m e s s', reachable_if false ABS NOLIM react ok m e s ->
+  g_running (s_g s) = false -> steps_if false ABS NOLIM react ok s s' ->
   (exists got more,
      c_rcvd (g_ci (s_g s')) = c_rcvd (g_ci (s_g s)) ++ got /\
      got ++ c_q (g_ci (s_g s')) = c_q (g_ci (s_g s)) ++ more) /\
   (g_ist (s_g s') = ILive -> c_q (g_ci (s_g s')) <> [] ->
-   (exists x, sys_step false ABS react s' (LStep I CRun) = Some x) \/
-   (exists t x, is_pend_i (l_pc (s_l s' t)) = true /\ sys_step false ABS react s' (LStep (U t) CRun) = Some x)).
-Proof. exact (queued_before_start_delivered ABS). Qed.
+   (exists x, sys_step false ABS NOLIM react s' (LStep I CRun) = Some x) \/
+   (exists t x, is_pend_i (l_pc (s_l s' t)) = true /\ sys_step false ABS NOLIM react s' (LStep (U t) CRun) = Some x)).
+Proof. exact (fun react => queued_before_start_delivered ABS NOLIM react eq_refl). Qed.
 Print Assumptions c11_queued_before_start_delivered.
 
 (* the deadlock detector's verdict: a state in which nothing can move holds no undelivered Message for a blocked reader *)
-Theorem c11_stuck_only_when_nothing_to_receive : forall react ok m e s, reachable_if false ABS react ok m e s ->
-  (forall w c, sys_step false ABS react s (LStep w c) = None) ->
+Theorem c11_stuck_only_when_nothing_to_receive : forall react ok m e s, reachable_if false ABS NOLIM react ok m e s ->
+  (forall w c, sys_step false ABS NOLIM react s (LStep w c) = None) ->
   (g_ist (s_g s) = ILive -> c_q (g_ci (s_g s)) = []) /\
   (forall w, l_pc (s_l s 0) = PRecvPark CO w -> c_q (g_co (s_g s)) = []).
-Proof. exact (stuck_only_when_nothing_to_receive ABS). Qed.
+Proof. exact (fun react => stuck_only_when_nothing_to_receive ABS NOLIM react eq_refl). Qed.
 Print Assumptions c11_stuck_only_when_nothing_to_receive.
 
-Theorem c11_running_iff_thread_exists : forall react ok m e s, reachable_if false ABS react ok m e s ->
+Theorem c11_running_iff_thread_exists : forall react ok m e s, reachable_if false ABS NOLIM react ok m e s ->
   g_running (s_g s) = negb (ist_none (g_ist (s_g s))) /\
   (g_ist (s_g s) = ILive -> g_sockets (s_g s) = true -> g_alloc (s_g s) = true /\ g_iopen (s_g s) = true).
-Proof. exact (running_iff_thread_exists ABS). Qed.
+Proof. exact (running_iff_thread_exists ABS NOLIM). Qed.
 Print Assumptions c11_running_iff_thread_exists.
 
 (* StartInternalThread in the order it was found (finding F47, since repaired in /repo): an event-driven internal thread
    loses a wake-up (witness schedule refute_labels in ThreadQProofs, replayed on the real code) *)
 Theorem c11_evd_lost_wakeup_refuted : forall react,
-  exists s, reachable true ABS react true true s /\
+  exists s, reachable true ABS NOLIM react true true s /\
     g_ist (s_g s) = ILive /\ l_pc (g_il (s_g s)) = PIEvWait /\ c_q (g_ci (s_g s)) = [Some 7] /\
     readable (s_g s) CI = false /\ (forall t, l_pc (s_l s t) = PIdle) /\
-    (forall w c, sys_step true ABS react s (LStep w c) = None).
-Proof. exact (evd_lost_wakeup_refuted ABS). Qed.
+    (forall w c, sys_step true ABS NOLIM react s (LStep w c) = None).
+Proof. exact (evd_lost_wakeup_refuted ABS NOLIM). Qed.
 Print Assumptions c11_evd_lost_wakeup_refuted.
 
 (* one WaitForNextMessageAux call absorbs at least one pending signal byte, and all of them up to sizeof(bytes):
@@ -122,46 +122,46 @@ Proof. exact (absorb_drains ABS). Qed.
 Print Assumptions c11_absorb_drains.
 
 (* non-vacuity: reachable, non-trivial states satisfying the premises *)
-Example c11_ex_internal_parked : exists s, reachable_if false ABS react0 any_label true false s /\
+Example c11_ex_internal_parked : exists s, reachable_if false ABS NOLIM react0 any_label true false s /\
   g_ist (s_g s) = ILive /\ l_pc (g_il (s_g s)) = PRecvPark CI WNever /\ c_q (g_ci (s_g s)) = [Some 5] /\
   readable (s_g s) CI = false /\ l_pc (s_l s 1) = PSendSig CI true.
-Proof. exact (ex_internal_parked ABS). Qed.
+Proof. exact (ex_internal_parked ABS NOLIM). Qed.
 
-Example c11_ex_internal_parked_wc : exists s, reachable_if false ABS react0 any_label false false s /\
+Example c11_ex_internal_parked_wc : exists s, reachable_if false ABS NOLIM react0 any_label false false s /\
   g_ist (s_g s) = ILive /\ l_pc (g_il (s_g s)) = PRecvPark CI WNever /\ c_q (g_ci (s_g s)) = [Some 5] /\
   readable (s_g s) CI = false /\ l_pc (s_l s 1) = PSendSig CI true.
-Proof. exact (ex_internal_parked_wc ABS). Qed.
+Proof. exact (ex_internal_parked_wc ABS NOLIM). Qed.
 
-Example c11_ex_owner_parked : exists s, reachable_if false ABS react0 any_label true false s /\
+Example c11_ex_owner_parked : exists s, reachable_if false ABS NOLIM react0 any_label true false s /\
   l_pc (s_l s 0) = PRecvPark CO WNever /\ c_q (g_co (s_g s)) = [Some 9] /\ l_pc (s_l s 1) = PSendSig CO true.
-Proof. exact (ex_owner_parked ABS). Qed.
+Proof. exact (ex_owner_parked ABS NOLIM). Qed.
 
-Example c11_ex_shutdown_waiting : exists s, reachable_if false ABS react0 any_label true false s /\
+Example c11_ex_shutdown_waiting : exists s, reachable_if false ABS NOLIM react0 any_label true false s /\
   l_pc (s_l s 0) = PJoinWait /\ l_k (s_l s 0) = [KDiscard] /\ g_ist (s_g s) = ILive /\ c_q (g_ci (s_g s)) = [None].
-Proof. exact (ex_shutdown_waiting ABS). Qed.
+Proof. exact (ex_shutdown_waiting ABS NOLIM). Qed.
 
-Example c11_ex_shutdown_exited : exists s, reachable_if false ABS react0 any_label true false s /\
+Example c11_ex_shutdown_exited : exists s, reachable_if false ABS NOLIM react0 any_label true false s /\
   l_pc (s_l s 0) = PJoinWait /\ l_k (s_l s 0) = [KDiscard] /\ g_ist (s_g s) = IExited.
-Proof. exact (ex_shutdown_exited ABS). Qed.
+Proof. exact (ex_shutdown_exited ABS NOLIM). Qed.
 
-Example c11_ex_queued_before_start : exists s, reachable_if false ABS react0 any_label true false s /\
+Example c11_ex_queued_before_start : exists s, reachable_if false ABS NOLIM react0 any_label true false s /\
   g_running (s_g s) = false /\ c_q (g_ci (s_g s)) = [Some 1; Some 2] /\ c_sig (g_ci (s_g s)) = 0 /\ g_alloc (s_g s) = false.
-Proof. exact (ex_queued_before_start ABS). Qed.
+Proof. exact (ex_queued_before_start ABS NOLIM). Qed.
 
-Example c11_ex_evd_parked : exists s, reachable_if false ABS react0 any_label true true s /\
+Example c11_ex_evd_parked : exists s, reachable_if false ABS NOLIM react0 any_label true true s /\
   g_ist (s_g s) = ILive /\ l_pc (g_il (s_g s)) = PIEvWait /\ c_q (g_ci (s_g s)) = [Some 3] /\
   readable (s_g s) CI = false /\ l_pc (s_l s 0) = PStartSpawned.
-Proof. exact (ex_evd_parked ABS). Qed.
+Proof. exact (ex_evd_parked ABS NOLIM). Qed.
 
 (* the schedule of c11_evd_lost_wakeup_refuted on the repaired order: the wake-up is not lost *)
-Example c11_ex_race_repaired : exists s, reachable_if false ABS react0 any_label true true s /\
+Example c11_ex_race_repaired : exists s, reachable_if false ABS NOLIM react0 any_label true true s /\
   g_ist (s_g s) = ILive /\ l_pc (g_il (s_g s)) = PIEvWait /\ c_q (g_ci (s_g s)) = [Some 7] /\
   readable (s_g s) CI = true.
-Proof. exact (ex_race_repaired ABS). Qed.
+Proof. exact (ex_race_repaired ABS NOLIM). Qed.
 
-Example c11_ex_stuck : exists s, reachable_if false ABS react0 any_label true false s /\
-  (forall w c, sys_step false ABS react0 s (LStep w c) = None).
-Proof. exact (ex_stuck ABS). Qed.
+Example c11_ex_stuck : exists s, reachable_if false ABS NOLIM react0 any_label true false s /\
+  (forall w c, sys_step false ABS NOLIM react0 s (LStep w c) = None).
+Proof. exact (ex_stuck ABS NOLIM). Qed.
 
 
 (* ---- "can always complete" (Conc/ThreadQProgress.v): no reachable state is a trap.  [canreach P s]: some finite
@@ -170,29 +170,36 @@ Proof. exact (ex_stuck ABS). Qed.
 
 (* from every reachable state with a live internal thread: it can finish, or receive everything queued and block *)
 Theorem c11_can_drain : forall react m e s,
-  reachable_if false ABS react any_label m e s -> g_ist (s_g s) = ILive ->
-  canreach ABS react (fun s' => reachable_if false ABS react any_label m e s' /\ drained s') s.
-Proof. exact (can_drain ABS). Qed.
+  reachable_if false ABS NOLIM react any_label m e s -> g_ist (s_g s) = ILive ->
+  canreach ABS NOLIM react (fun s' => reachable_if false ABS NOLIM react any_label m e s' /\ drained s') s.
+Proof. exact (fun react => can_drain ABS NOLIM react eq_refl). Qed.
 Print Assumptions c11_can_drain.
 
 (* shutdown can always run to completion: once a NULL Message is queued for (or taken by) a live thread, it can finish *)
 Theorem c11_shutdown_can_complete : forall react m e s,
-  reachable_if false ABS react any_label m e s -> g_ist (s_g s) = ILive -> null_seen s ->
-  canreach ABS react (fun s' => reachable_if false ABS react any_label m e s' /\ g_ist (s_g s') = IExited) s.
-Proof. exact (shutdown_can_complete ABS). Qed.
+  reachable_if false ABS NOLIM react any_label m e s -> g_ist (s_g s) = ILive -> null_seen s ->
+  canreach ABS NOLIM react (fun s' => reachable_if false ABS NOLIM react any_label m e s' /\ g_ist (s_g s') = IExited) s.
+Proof. exact (fun react => shutdown_can_complete ABS NOLIM react eq_refl). Qed.
 Print Assumptions c11_shutdown_can_complete.
 
 (* every queued Message can be received: in order, all of them unless the thread finishes first *)
 Theorem c11_queued_can_be_received : forall react m e s,
-  reachable_if false ABS react any_label m e s -> g_ist (s_g s) = ILive ->
-  canreach ABS react (fun s' => reachable_if false ABS react any_label m e s' /\ exists got,
+  reachable_if false ABS NOLIM react any_label m e s -> g_ist (s_g s) = ILive ->
+  canreach ABS NOLIM react (fun s' => reachable_if false ABS NOLIM react any_label m e s' /\ exists got,
               c_rcvd (g_ci (s_g s')) = c_rcvd (g_ci (s_g s)) ++ got /\
               got ++ c_q (g_ci (s_g s')) = c_q (g_ci (s_g s)) /\
               (g_ist (s_g s') = IExited \/ c_q (g_ci (s_g s')) = [])) s.
-Proof. exact (queued_can_be_received ABS). Qed.
+Proof. exact (fun react => queued_can_be_received ABS NOLIM react eq_refl). Qed.
 Print Assumptions c11_queued_can_be_received.
 
 (* the premises of c11_shutdown_can_complete are met by c11_ex_shutdown_waiting's state (a NULL Message is queued) *)
-Example c11_ex_null_seen : exists s, reachable_if false ABS react0 any_label true false s /\
+Example c11_ex_null_seen : exists s, reachable_if false ABS NOLIM react0 any_label true false s /\
   g_ist (s_g s) = ILive /\ null_seen s.
-Proof. exact (ex_null_seen ABS). Qed.
+Proof. exact (ex_null_seen ABS NOLIM). Qed.
+
+(* the pending-notification counts of the WaitConditions stay uint32 values: IncreaseNotificationsCount saturates at the
+   translated MUSCLE_NO_LIMIT (= 2^32-1, checked by conversion) and never wraps to 0, so a Notify() is never lost *)
+Theorem c11_notification_counts_are_uint32 : forall react ok m e s,
+  reachable_if false ABS NOLIM react ok m e s -> wcb NOLIM (s_g s).
+Proof. exact (notification_counts_are_uint32 false ABS). Qed.
+Print Assumptions c11_notification_counts_are_uint32.
